@@ -237,7 +237,7 @@ pub mod rust_log_ref_finder
                                         ));
 
                                         ref_kind = LogRefKind::StructuredPreExisting;
-                                        reference = match span.as_str().parse::<u32>()
+                                        reference = match span.as_str().trim_end().parse::<u32>()
                                         {
                                             Err(_) => None,
                                             Ok(val) => Some(val),
